@@ -130,7 +130,7 @@ func runPrograms(a lib.Args, res *lib.Result, po progOpts) error {
 	if classify == nil {
 		classify = defaultClassify(po.prop)
 	}
-	r := lib.NewRand(a.Seed + po.seedOff)
+	r := lib.NewRandStream(a.Seed, po.seedOff)
 	for i := 0; i < po.programs; i++ {
 		g := prog.NewGen(r.Fork())
 		if po.tune != nil {
@@ -236,6 +236,7 @@ func runPrograms(a lib.Args, res *lib.Result, po progOpts) error {
 			for _, s := range steps {
 				s.CompareEvents = true
 			}
+			prog.ReconcileLateEvents(steps)
 		}
 		for j, s := range steps {
 			class := s.Diff()
